@@ -482,6 +482,11 @@ func chunkUploader(ctx context.Context,
 				return err
 			}
 
+			// only now are these keys safely in the index: a failed attempt must send them again
+			if err := dbReader.Commit(); err != nil {
+				return err
+			}
+
 			uploaded := dbReader.Count()
 			atomic.AddUint64(uploadKeysPtr, uploaded)
 
@@ -1050,6 +1055,7 @@ type dbReader struct {
 	logger    *zap.Logger
 	partial   []byte
 	maxKeys   uint64
+	sent      [][]byte // keys handed out to the reader, not yet marked as uploaded
 }
 
 func newDBReader(ctx context.Context, db kvStore, indexTime time.Time, logger *zap.Logger, maxKeys uint64) *dbReader {
@@ -1154,10 +1160,7 @@ func (r *dbReader) Read(p []byte) (int, error) {
 			b = append(b, '\n') // add newline to separate keys
 
 			// mark key as read in the DB
-			if err := r.db.Set(key, []byte("X")); err != nil {
-				return 0, fmt.Errorf("failed to mark KV key as read: %w", err)
-			}
-
+			r.sent = append(r.sent, key)
 			r.count++
 		}
 
@@ -1170,6 +1173,21 @@ func (r *dbReader) Read(p []byte) (int, error) {
 	copy(p, b)
 
 	return len(b), nil
+}
+
+// Commit marks all the keys read so far as uploaded. To be called once the upload of these keys has succeeded.
+func (r *dbReader) Commit() error {
+	r.mx.Lock()
+	defer r.mx.Unlock()
+
+	for _, key := range r.sent {
+		if err := r.db.Set(key, []byte("X")); err != nil {
+			return fmt.Errorf("failed to mark KV key as read: %w", err)
+		}
+	}
+	r.sent = nil
+
+	return nil
 }
 
 func (r *dbReader) Close() error {
